@@ -1,0 +1,29 @@
+//go:build verif
+
+package main
+
+import (
+	"net/http"
+	neturl "net/url"
+	"os"
+)
+
+// verifTransport redirects every request of the tool to the server named by
+// VERIF_WORDLIST_URL (scheme and host only; the path is kept). Verification
+// hook, compiled only with the verif build tag.
+type verifTransport struct{ base *neturl.URL }
+
+func (t verifTransport) RoundTrip(r *http.Request) (*http.Response, error) {
+	r2 := r.Clone(r.Context())
+	r2.URL.Scheme, r2.URL.Host = t.base.Scheme, t.base.Host
+	r2.Host = t.base.Host
+	return http.DefaultTransport.RoundTrip(r2)
+}
+
+func init() {
+	if b := os.Getenv("VERIF_WORDLIST_URL"); b != "" {
+		if u, err := neturl.Parse(b); err == nil {
+			http.DefaultClient.Transport = verifTransport{u}
+		}
+	}
+}
